@@ -263,5 +263,21 @@ def reasons (m : Machine) : List String :=
     m.states.foldl (fun acc s => acc ++ stateReasons m.states.length s) []
   rs.foldl (fun acc r => if acc.contains r then acc else acc ++ [r]) []
 
+/-! ### concrete machines used as counterexamples (replayed on the implementation by the check) -/
+
+def emptyState : State :=
+  { action := none, counterA := none, counterB := none, transitions := List.replicate EVENT_NUM none }
+
+/-- one state without transitions; `max_padding_frac` is the quiet NaN `0x7ff8000000000000` -/
+def witnessNanFraction : Machine :=
+  { allowedPaddingPackets := 0, maxPaddingFrac := 0x7ff8000000000000, allowedBlockedMicrosec := 0,
+    maxBlockingFrac := 0, states := [emptyState] }
+
+/-- one state whose NormalRecv vector is `[Trans(0, NaN)]` (f32 quiet NaN `0x7fc00000`) -/
+def witnessNanProbability : Machine :=
+  { allowedPaddingPackets := 0, maxPaddingFrac := 0, allowedBlockedMicrosec := 0, maxBlockingFrac := 0,
+    states := [{ emptyState with
+      transitions := some [⟨0, 0x7fc00000⟩] :: List.replicate (EVENT_NUM - 1) none }] }
+
 end C12
 end Mb
